@@ -13,6 +13,7 @@ it.  Besides the small base log (keys a,b,c, short values, indexes 1,2,3,...) th
   record counts   number of records of the recovered snapshot (user keys + the applied-index record) around 32 .. 4096
   index magnitude raft indexes with gaps (not every raft index reaches the state machine) crossing 2^7, 2^8, 2^14, 2^16,
                   2^32, 2^63, ... up to 2^64-1, reached by updates and by a snapshot's index
+  entries per call ONE Update call of 63 .. 6401 (thorough 10000) small entries, keys rewritten within the call
   bytes per call  ONE Update call of 1 .. 24 MB in total made of 2-5 large values and small ones around them (a limit on
                   the size of a batch / WAL record would be crossed in the middle of the call)
   crash after ack every workload has crash points between two calls and after its last call (an acknowledged call
@@ -231,6 +232,25 @@ def index_workloads(bounds):
         if lg.ents[-1][2] > top:
             lg = Log(lg.ents[:7 + max(0, top - (b + 3))])
         out.append(("index-%d-by-snapshot" % b, "O,U1,R3,U1,C,O,R1,U1", lg))
+    return out
+
+
+ENTRIES_FIXED_Q = [63, 64, 65, 71, 72, 73, 127, 128, 129, 255, 256]
+ENTRIES_BIG = [5040, 6400]          # composite (see COUNTS_FIXED_Q), each also -1 and +1
+ENTRIES_POOL = [16, 32, 48, 50, 60, 96, 100, 144, 192, 200, 216, 250, 500, 512, 1000, 1024]
+
+
+def entries_workloads(counts, both):
+    """ONE Update call of n small entries (two thirds of them on distinct keys, the rest rewriting keys of the same call):
+    as the last call of the workload (every later crash point is 'right after the acknowledged call'), and - for the
+    counts in `both` - followed by one more update and Close"""
+    out = []
+    for n in counts:
+        nk = max(3, (2 * n) // 3)
+        ents = [("a", None, None)] + [("k%04d" % (j % nk + 1), None, None) for j in range(n)]
+        out.append(("entries-%d-last" % n, "O,U1,U%d" % n, mk_log(ents, n + 1)))
+        if n in both:
+            out.append(("entries-%d-then-update" % n, "O,U%d,U1,C" % n, mk_log(ents[1:], n + 1)))
     return out
 
 
@@ -559,6 +579,9 @@ def run(ck):
         "and on an empty store with no call afterwards); "
         "+ index workloads (raft indexes with gaps crossing B in %s: by updates B-2,B-1,B,close,reopen,B+1, by calls whose "
         "entries have the gap between them, and by snapshot indexes B, B+2); + %d PRNG sequences over PRNG logs mixing 3-8 keys, large values and index gaps; "
+        "+ entry-count workloads (ONE Update call of n small entries, a third of them rewriting keys of the same call, n in %s: as "
+        "the last call of the workload, so that every later crash point is right after the acknowledged call, and followed by one "
+        "more update and Close; n >= 900 in quick: sampled like the record counts); "
         "+ total-bytes workloads (ONE Update call of %s bytes made of 2-5 large values with small ones before, between and after "
         "them, keys rewritten within the call; crash points: every %s index, the index of and after every file sync / directory "
         "sync / rename also inside the store directory, first/last operation of every call). "
@@ -569,6 +592,8 @@ def run(ck):
         "31st pair of the size / count (< 300 records) / index (below 2^64-100) / mixed workloads. "
         "A case is non-trivial if the crash hits a call in progress; distinct by workload and crash indexes."
         % (NRAND, LOGLEN, 1 if quick else 3, sizes, counts, bounds, NRICH,
+           "63-65, 71-73, 127-129, 255, 256, 5039-5041, 6399-6401 and two drawn from %s" % ENTRIES_POOL if quick else
+           "the same and all of %s, 2048, 4096, 10000" % ENTRIES_POOL,
            "5-8 MB and 1/2/4 MB + a little" if quick else "1, 2, 4, 8, 16 MB -/+ a little, 5-8, 9-15 and 24 MB", "4th" if quick else "2nd",
            "; quick tier: in the size / count / index / mixed workloads the indexes inside the first Open are left out (they do not "
            "depend on the log), and for record counts >= 1000 the points are the first/last operation of every call, after the "
@@ -597,6 +622,15 @@ def run(ck):
     for i in range(NRICH):
         w = random_workload(rng)
         new_dims.append(("rich-%d" % (i + 1), w, rich_log(rng, consumed(w)), M))
+    # number of entries of ONE call
+    if quick:
+        ecounts = ENTRIES_FIXED_Q + [x + d for x in ENTRIES_BIG for d in (-1, 0, 1)] + rng.sample(ENTRIES_POOL, 2)
+        eboth = set(ENTRIES_FIXED_Q + ENTRIES_BIG)
+    else:
+        ecounts = ENTRIES_FIXED_Q + [x + d for x in ENTRIES_BIG for d in (-1, 0, 1)] + ENTRIES_POOL + [2048, 4096, 10000]
+        eboth = set(ecounts)
+    for wid, calls, lg in entries_workloads(ecounts, eboth):
+        new_dims.append((wid, calls, lg, "T3:%d" % rng.randrange(3) if quick and lg.n >= 900 else M))
     # total bytes of ONE call: sampled crash points (every 4th / 2nd index, every sync and rename boundary, call boundaries)
     if quick:
         totals = [rng.randrange(5 * MB, 8 * MB), rng.choice([1, 2, 4]) * MB + rng.randrange(1, 65536)]
@@ -741,7 +775,8 @@ def run(ck):
     ck.cov["crash_points_double"] = sum(s["double_crash_points"] for s in stats.values())
     ck.cov["dimensions"] = {"value_sizes_bytes": sizes, "snapshot_record_counts": counts, "index_boundaries": [str(b) for b in bounds],
                             "largest_index": str(max(lg.ents[-1][2] for lg in wlog.values())),
-                            "total_bytes_of_one_update_call": [] if ck.replay else totals}
+                            "total_bytes_of_one_update_call": [] if ck.replay else totals,
+                            "entries_of_one_update_call": [] if ck.replay else ecounts}
     tot = {}
     for s in stats.values():
         for k, v in s["outcome"].items():
